@@ -247,8 +247,9 @@ def slave_only(repo: Repo) -> RuleRun:
     r = RuleRun(PROP, "C05.SLAVE-ONLY", floor=8, what="only slave patches reach VertexList.add; merge/master/slave/writer agree; duplicate keys sorted")
     fn = repo.func("mesh.Mesh._add_vertices")
     patches = {"bottom": "pb", "top": "pt", "front": "pf", "right": "pr", "back": "pk", "left": "pl"}
-    for slave in ({"pb"}, {"pf", "pr"}, set(), {"pt", "pl", "pk"}):
-        op, res, calls = eval_add_vertices(repo, slave, patches)
+    # the last scenario chains two merged pairs: 'pr' is the slave of 'pf' AND the master of 'pk' - it stays a slave
+    for slave, merged in (({"pb"}, None), ({"pf", "pr"}, None), (set(), None), ({"pt", "pl", "pk"}, None), ({"pr", "pk"}, [("pf", "pr"), ("pr", "pk")])):
+        op, res, calls = eval_add_vertices(repo, slave, patches, merged)
         ok = len(calls) == 8
         detail = ""
         for k, args in enumerate(calls):
